@@ -939,7 +939,32 @@ var adminTypes = []string{"AcceptOwner", "AddRemoteTokenMessenger", "DisableAtte
 	"UnpauseBurningAndMinting", "UnpauseSendingAndReceivingMessages", "UpdateOwner", "UpdateAttesterManager",
 	"UpdateTokenController", "UpdatePauser", "UpdateMaxMessageBodySize", "SetMaxBurnAmountPerMessage", "UpdateSignatureThreshold"}
 
+// unsetRoles: a genesis may leave role slots empty (the module's own default genesis leaves all four empty).  Nobody holds
+// an empty role: every privileged action of that role fails for every account.  (A message whose `from` is itself the empty
+// string is included for the record: the handlers' comparison admits it; the SDK never delivers a message without signer.)
+func (g *Gen) unsetRoles() {
+	for mask := 0; mask < 5; mask++ {
+		g.config()
+		sp := g.standardGenesis(3, 2)
+		if mask == 0 {
+			sp.owner, sp.am, sp.pauser, sp.tc = "", "", "", ""
+		} else {
+			*[]*string{&sp.owner, &sp.am, &sp.pauser, &sp.tc}[mask-1] = ""
+		}
+		g.emit(Op{Kind: "genesis-init", KV: sp.kv()})
+		g.dump()
+		for _, ty := range adminTypes {
+			for _, from := range []string{g.acct[0], g.acct[4], ""} {
+				g.adminOp(ty, from)
+			}
+		}
+	}
+}
+
 func scnRoles(g *Gen, budget int, arg string) {
+	if arg != "lifecycle" {
+		g.unsetRoles()
+	}
 	for g.nOps < budget {
 		// a random assignment of the four stored roles over the universe (possibly shared), pending set or not
 		g.config()
